@@ -123,7 +123,7 @@ def run_check(pid, tier):
         ct = REGISTRY[q]
         for rep in verify_contract(ct):
             reports.append(rep)
-            fn_status[rep.qualname] = (rep.status, rep.detail, rep.paths, len(rep.obligs), round(rep.time_s, 3))
+            fn_status[rep.qualname] = (rep.status, rep.detail or ("REGION: " + rep.region if getattr(rep, "region", None) else ""), rep.paths, len(rep.obligs), round(rep.time_s, 3))
             for o in rep.obligs:
                 (canaries if o.kind == "canary" else obligs).append(o)
     # property-level SMT lemmas
